@@ -7,7 +7,9 @@ from .common import case, guarded, ordinal_instance, strict, rand_perm
 
 ID = "C13"
 COVER_FILES = ['properties/subdomains/ordinal/singlepeaked/single_peaked_tree.py']
-RULE = ("exhaustive: m = 2; every non-empty set of distinct strict orders over 3 alternatives (both storage orders); "
+RULE = ("alternative ids are non-negative integers; every range below exists with ids 1..m and with the 0-based ids "
+        "0..m-1, about half of the random id pools contain 0 and the planted trees are relabelled so that 0 is an "
+        "inner vertex. exhaustive: m = 2; every non-empty set of distinct strict orders over 3 alternatives (both storage orders); "
         "every set of <= 3 (quick) / <= 4 (thorough) distinct strict orders over 4 alternatives, stored in increasing "
         "and in decreasing lexicographic order (thorough: also all sets of 5, one storage order); all sets of <= 2 orders over three non-contiguous id sets of size 4; "
         "m = 5: the identity order with every other order, and with every pair of other orders (quick: 1200 sampled "
@@ -22,17 +24,19 @@ RULE = ("exhaustive: m = 2; every non-empty set of distinct strict orders over 3
         "large noisy cases are judged exactly as well. non-trivial = at least 4 alternatives and at least 2 distinct "
         "orders")
 EXHAUSTIVE = {"quick": "m = 2; all sets of distinct strict orders for m = 3 (63 sets x 2 storage orders); all sets of "
-                       "1..3 distinct orders for m = 4 x 2 storage orders; m = 5: identity + each other order",
+                       "1..3 distinct orders for m = 4 x 2 storage orders; m = 5: identity + each other order; "
+                       "each of these ranges also with the 0-based ids 0..m-1",
               "thorough": "m = 2; all sets of distinct strict orders for m = 3; all sets of 1..4 distinct orders for "
                           "m = 4 x 2 storage orders and all sets of 5 orders (one storage order); m = 5: identity "
-                          "+ each other order, identity + each pair of other orders"}
+                          "+ each other order, identity + each pair of other orders; m = 2, 3, 4 (sets of 1..4), "
+                          "m = 5 (identity + each other order) also with the 0-based ids 0..m-1"}
 TRUSTED = ["the mirror Model/TreeAlgo.v of is_single_peaked_on_tree / get_B / get_bottom_alts / restrict_preferences is "
            "hand-written; it is proved sound, complete and terminating for every admissible iteration order of the two "
            "Python sets, and tied to the code by comparing verdicts on every case (edge lists are not compared, they "
            "depend on set order; the implementation's list goes through the proved checker). "
            "OrdinalInstance.flatten_strict is not modelled (strict orders are passed as singleton classes)"]
-ASSUMPTIONS = ["profiles of strict complete orders (data_type soc) over >= 2 alternatives with distinct positive "
-               "integer ids; alternatives_name lists exactly the alternatives of the orders"]
+ASSUMPTIONS = ["profiles of strict complete orders (data_type soc) over >= 2 alternatives with distinct non-negative "
+               "integer ids (0 included); alternatives_name lists exactly the alternatives of the orders"]
 TIMEOUT_S = 10.0
 CHUNK = 25
 THEOREMS_FOR_OP = {"c13.decide": "spt_decide_correct, spt_check_correct, trick_decides",
@@ -85,21 +89,53 @@ def _rand_tree(rng, alts, shape=None):
 
 
 def _ids(rng, m):
-    mode = rng.randrange(4)
+    """alternative ids: non-negative integers; about half of the pools contain 0 (samplers are 0-based)"""
+    mode = rng.randrange(8)
     if mode == 0:
         return list(range(1, m + 1))
     if mode == 1:
         return rng.sample(range(1, 3 * m + 5), m)
     if mode == 2:
         return rng.sample(range(1, 10 ** 6), m)
-    a = list(range(1, m + 1))
+    if mode == 3:
+        a = list(range(1, m + 1))
+        rng.shuffle(a)
+        return a
+    if mode == 4:
+        return list(range(0, m))
+    if mode == 5:
+        a = list(range(0, m))
+        rng.shuffle(a)
+        return a
+    a = [0] + rng.sample(range(1, (3 * m + 5) if mode == 6 else 10 ** 6), m - 1)
     rng.shuffle(a)
     return a
 
 
+def _zero_inside(rng, edges):
+    """relabel so that alternative 0 (if present) is an inner vertex of the tree whenever there is one"""
+    deg = {}
+    for a, b in edges:
+        deg[a] = deg.get(a, 0) + 1
+        deg[b] = deg.get(b, 0) + 1
+    if 0 not in deg or deg[0] >= 2:
+        return edges
+    inner = sorted(x for x, d in deg.items() if d >= 2)
+    if not inner:
+        return edges
+    x = rng.choice(inner)
+    sw = {0: x, x: 0}
+    return [(sw.get(a, a), sw.get(b, b)) for a, b in edges]
+
+
 def _planted(rng, m, n, noise, **tags):
     alts = _ids(rng, m)
-    edges, adj = _rand_tree(rng, alts)
+    edges, _ = _rand_tree(rng, alts)
+    edges = _zero_inside(rng, edges)
+    adj = {a: [] for a in alts}
+    for a, b in edges:
+        adj[a].append(b)
+        adj[b].append(a)
     if noise == 0:
         tags["planted_tree"] = [list(e) for e in edges]
     orders = []
@@ -130,6 +166,9 @@ def generate(tier, seed):
     for orders in ([(1, 2)], [(2, 1)], [(1, 2), (2, 1)], [(2, 1), (1, 2)]):
         out.append(_mk([1, 2], orders, exh=2))
     out.append(_mk([7, 3], [(3, 7), (7, 3)], [2, 5], exh=2))
+    for orders in ([(0, 1)], [(1, 0)], [(0, 1), (1, 0)], [(1, 0), (0, 1)]):
+        out.append(_mk([0, 1], orders, exh=2))
+    out.append(_mk([5, 0], [(0, 5), (5, 0)], [3, 1], exh=2))
     # m = 3: every non-empty set of orders, both storage orders
     perms3 = list(itertools.permutations((1, 2, 3)))
     for k in range(1, 7):
@@ -137,6 +176,13 @@ def generate(tier, seed):
             out.append(_mk([1, 2, 3], sub, exh=3))
             if k > 1:
                 out.append(_mk([3, 1, 2], sub[::-1], exh=3))
+    # the same with the 0-based ids 0..2 (alternative 0 is a legitimate id)
+    perms3z = list(itertools.permutations((0, 1, 2)))
+    for k in range(1, 7):
+        for sub in itertools.combinations(perms3z, k):
+            out.append(_mk([0, 1, 2], sub, exh=3))
+            if k > 1:
+                out.append(_mk([2, 0, 1], sub[::-1], exh=3))
     # m = 4: every set of <= nmax orders, both storage orders
     perms4 = list(itertools.permutations((1, 2, 3, 4)))
     nmax = 3 if tier == "quick" else 4
@@ -145,11 +191,16 @@ def generate(tier, seed):
             out.append(_mk([1, 2, 3, 4], sub, exh=4))
             if k > 1:
                 out.append(_mk([1, 2, 3, 4], sub[::-1], exh=4))
+    # the same sets over the 0-based ids 0..3, one storage order
+    perms4z = list(itertools.permutations((0, 1, 2, 3)))
+    for k in range(1, nmax + 1):
+        for sub in itertools.combinations(perms4z, k):
+            out.append(_mk([0, 1, 2, 3], sub, exh=4))
     if tier != "quick":      # all sets of 5 orders, one storage order
         for sub in itertools.combinations(perms4, 5):
             out.append(_mk([1, 2, 3, 4], sub, exh=4))
     # m = 4, sets of <= 2 orders over non-contiguous / unsorted ids (set iteration order differs)
-    for ids in ([10, 3, 7, 22], [8, 16, 24, 32], [5, 4, 2, 9]):
+    for ids in ([10, 3, 7, 22], [8, 16, 24, 32], [5, 4, 2, 9], [6, 0, 12, 3]):
         pp = list(itertools.permutations(ids))
         for k in (1, 2):
             for sub in itertools.combinations(pp, k):
@@ -159,11 +210,14 @@ def generate(tier, seed):
     ident, others = perms5[0], perms5[1:]
     for o in others:
         out.append(_mk([1, 2, 3, 4, 5], [ident, o], exh=5))
+        out.append(_mk([0, 1, 2, 3, 4], [[a - 1 for a in o], [a - 1 for a in ident]], exh=5))
     pairs5 = list(itertools.combinations(others, 2))
     if tier == "quick":
         pairs5 = rng.sample(pairs5, 1200)
-    for o1, o2 in pairs5:
+    for j, (o1, o2) in enumerate(pairs5):
         out.append(_mk([1, 2, 3, 4, 5], [o2, ident, o1], exh=5))
+        if j % 2 == 0:      # 0-based copy
+            out.append(_mk([0, 1, 2, 3, 4], [[a - 1 for a in o2], [a - 1 for a in ident], [a - 1 for a in o1]], exh=5))
     # random small, verdict compared with the reference
     nrand = 1500 if tier == "quick" else 10000
     for i in range(nrand):
@@ -329,6 +383,7 @@ def stats(c, r, m):
     v = "?"
     if isinstance(r, list) and r and r[0] == 0:
         v = "T" if r[1][0] == 1 else "F"
+    zero = ["id 0 %s, verdict %s" % ("present" if 0 in c["payload"][0] else "absent", v)]
     mirror = []
     try:
         a1, a2 = d["algo"][1], d["algo2"][1]
@@ -339,11 +394,11 @@ def stats(c, r, m):
         mirror.append("mirror error")
     if c["op"] == "c13.decide":
         ref = "T" if d["decide"] == 1 else "F"
-        return ["decide m=%d ref=%s" % (mm, ref), "decide n=%s ref=%s" % (n if n <= 4 else ">4", ref)] + mirror
+        return ["decide m=%d ref=%s" % (mm, ref), "decide n=%s ref=%s" % (n if n <= 4 else ">4", ref)] + mirror + zero
     size = "7-15" if mm <= 15 else "16-30"
     if c["op"] == "c13.check":
-        return ["planted m=%s verdict=%s witness=%s" % (size, v, "ok" if d["check"] == 1 else "bad")] + mirror
-    return ["noisy-large m=%s verdict=%s%s" % (size, v, " witness=ok" if (v == "T" and d["check"] == 1) else "")] + mirror
+        return ["planted m=%s verdict=%s witness=%s" % (size, v, "ok" if d["check"] == 1 else "bad")] + mirror + zero
+    return ["noisy-large m=%s verdict=%s%s" % (size, v, " witness=ok" if (v == "T" and d["check"] == 1) else "")] + mirror + zero
 
 
 def describe(c):
